@@ -62,7 +62,7 @@ def observe(case):
         htaio.hta_setup()
         from hta.common.trace import Trace
         canon: Dict[str, Any] = {}
-        t = Trace(trace_files=dict(files), trace_dir=os.path.dirname(files[0]))
+        t = Trace(trace_files=dict(files), trace_dir=os.path.dirname(next(iter(files.values()))))
         t.parse_traces(use_multiprocessing=False)
         parsed = {r: _frame(t, r) for r in t.get_ranks()}
         canon["iteration"] = {r: sorted([x[0], x[8]] for x in rows) for r, rows in parsed.items()}
